@@ -458,14 +458,14 @@ func c12Validator(c c12Case, r *hx.Rec) error {
 			if l.Products == nil {
 				l.Products = hx.MArtifacts{}
 			}
-			l.Products["bad"] = map[string]string{"sha256": []string{"xyz", "", "12 34", "0x12"}[c.A%4]}
+			l.Products["bad"] = map[string]string{"sha256": []string{"xyz", "", "12 34", "0x12", "12\uff13\uff14", "\uff41\uff42cd", "ab\u0663", "abcd\n", "ab-cd"}[c.A%9]}
 			m = hx.MMeta{Link: &l}
 			return true
 		case "sig-nonhex":
-			sigs = []intoto.Signature{{KeyID: hx.PoolKey("ed25519-0").KeyID, Sig: []string{"zz", "", "ab cd"}[c.A%3]}}
+			sigs = []intoto.Signature{{KeyID: hx.PoolKey("ed25519-0").KeyID, Sig: []string{"zz", "", "ab cd", "\uff41\uff42", "ab\uff10"}[c.A%5]}}
 			return true
 		case "sigkeyid-nonhex":
-			sigs = []intoto.Signature{{KeyID: []string{"not-hex", "", "g0"}[c.A%3], Sig: "abcd"}}
+			sigs = []intoto.Signature{{KeyID: []string{"not-hex", "", "g0", "\uff41\uff42\uff43", "0\uff11"}[c.A%5], Sig: "abcd"}}
 			return true
 		}
 		if m.Layout == nil {
@@ -554,7 +554,7 @@ func c12Validator(c c12Case, r *hx.Rec) error {
 				return false
 			}
 			i := c.A % len(l.Steps)
-			l.Steps[i].PubKeys = append(append([]string{}, l.Steps[i].PubKeys...), []string{"nothex", "", "12zz"}[c.A%3])
+			l.Steps[i].PubKeys = append(append([]string{}, l.Steps[i].PubKeys...), []string{"nothex", "", "12zz", "\uff21\uff22", "ab\uff19"}[c.A%5])
 		case "private-present":
 			k := hx.MKeyFromLib(hx.PoolKey("ecdsa-p256-0").Full())
 			keys[k.KeyID] = k
